@@ -438,6 +438,8 @@ Proof. unfold upd_conn. intros H. apply in_map_iff in H. destruct H as [c [<- Hc
 Lemma keeps_push p : keeps_id (c_push p). Proof. intros c; reflexivity. Qed.
 Lemma keeps_setq q : keeps_id (c_set_queue q). Proof. intros c; reflexivity. Qed.
 Lemma keeps_unmap : keeps_id c_unmap. Proof. intros c; reflexivity. Qed.
+Lemma keeps_fresh b : keeps_id (c_fresh b). Proof. intros c; reflexivity. Qed.
+Lemma keeps_drop : keeps_id c_drop. Proof. intros c; reflexivity. Qed.
 Lemma keeps_closemapped : keeps_id (fun c => if c_mapped c then c_close c else c).
 Proof. intros c. destruct (c_mapped c); reflexivity. Qed.
 
@@ -749,7 +751,21 @@ Proof.
   { intros o0. apply Inv_trace; [intros i; reflexivity|exact HI]. }
   destruct (id =? reserved_conn_id); [inversion Hstep; subst; apply Ht|].
   destruct (find_conn id (m_conns s)) as [c|] eqn:Ef.
-  { destruct (c_mapped c); inversion Hstep; subst; apply Ht. }
+  { destruct (c_mapped c); inversion Hstep; subst; [apply Ht|]. clear Hstep Ht.
+    (* re-Open of an id closed by conn.Close: a fresh object replaces the old one *)
+    apply Inv_trace; [intros i; reflexivity|].
+    destruct HI as [H1 H2 H3 H4 H5]. constructor; cbn [m_conns m_err m_closed m_reader_done m_rx set_conns].
+    - rewrite upd_conn_ids by apply keeps_fresh. exact H1.
+    - exact H2.
+    - intros i Hi. apply H3. rewrite find_conn_upd in Hi by apply keeps_fresh.
+      destruct (find_conn i (m_conns s)); [discriminate|reflexivity].
+    - intros Hcl c' Hin. apply In_upd_conn in Hin. destruct Hin as [c1 [Hc1 ->]].
+      destruct (c_id c1 =? id); [cbn; exact Hcl|auto].
+    - destruct H5 as (done&rest&m&Ha&Hb&Hc&Hd). exists done, rest, m.
+      split; [exact Ha|]. split; [exact Hb|]. split; [exact Hc|].
+      intros c' Hin. apply In_upd_conn in Hin. destruct Hin as [c1 [Hc1 ->]].
+      destruct (c_id c1 =? id); [|auto].
+      unfold conn_ok. cbn [c_fresh c_late c_mapped]. split; [discriminate|]. split; discriminate. }
   inversion Hstep; subst. clear Hstep Ht. apply Inv_trace; [intros i; reflexivity|].
   destruct HI as [H1 H2 H3 H4 H5]. constructor; cbn [m_conns m_err m_closed m_reader_done m_rx set_conns].
   - rewrite map_app. cbn [map c_id]. apply NoDup_snoc; [exact H1|now apply find_conn_None_notin].
@@ -765,6 +781,12 @@ Qed.
 Lemma open_closes_ok : open_closes_on_closed = true.
 Proof. reflexivity. Qed.
 
+(* a repeated Close of a stale handle: with the identity test of conn.Close nothing happens *)
+Lemma close_checks_ok : close_checks_identity = true.
+Proof. reflexivity. Qed.
+Lemma stale_close_noop id s : fst (stale_close_step true id s) = s.
+Proof. unfold stale_close_step. destruct (find_conn id (m_conns s)); [destruct (0 <? c_gen c)|]; reflexivity. Qed.
+
 Lemma Inv_step all full mp s tr e s' o : Forall wf_frame all ->
   step_mp mp s e = (s', o) -> Inv all full s tr -> Inv all full s' (tr ++ [(e, o)]).
 Proof.
@@ -773,6 +795,8 @@ Proof.
   - eapply Inv_read; eauto.
   - eapply Inv_readb; eauto.
   - rewrite open_closes_ok in Hstep. eapply Inv_open; eauto.
+  - rewrite close_checks_ok in Hstep. pose proof (stale_close_noop id s) as Hn. rewrite Hstep in Hn. cbn [fst] in Hn. subst s'.
+    apply Inv_trace; [intros i; reflexivity|exact HI].
   - eapply Inv_write; eauto.
   - inversion Hstep; subst. apply Inv_trace; [intros i; reflexivity|]. now apply Inv_do_close.
   - inversion Hstep; subst. apply Inv_trace; [intros i; reflexivity|]. now apply Inv_conn_close.
@@ -910,6 +934,9 @@ Proof.
   destruct (find_conn id (m_conns s)); [destruct (c_mapped c); cbn; tauto|cbn; tauto].
 Qed.
 
+Lemma stale_step_id id s : fst (step_mp 0 s (EvStaleClose id)) = s.
+Proof. cbn [step_mp]. rewrite close_checks_ok. apply stale_close_noop. Qed.
+
 Theorem error_latched_step mp s e ev : m_err s = Some e ->
   m_err (fst (step_mp mp s ev)) = Some e /\
   (forall e', is_read ev = true -> snd (step_mp mp s ev) = RErr e' -> e' = e).
@@ -920,6 +947,7 @@ Proof.
   - destruct (read_latched s e id pick H) as [H1 H2]. rewrite read_buf_fst, read_buf_snd. split; [exact H1|].
     intros e' _ He. apply H2. destruct (snd (read_step id pick s)); try discriminate; exact He.
   - destruct (open_step_fields open_closes_on_closed id s) as [-> _]. split; [exact H|discriminate].
+  - rewrite close_checks_ok, stale_close_noop. split; [exact H|discriminate].
   - split; [|discriminate]. unfold write_step.
     destruct (find_conn id (m_conns s)); [|exact H]. destruct (c_closed c); [exact H|].
     destruct (m_closed s || m_tx_broken s); [exact H|]. destruct cut; [|exact H].
@@ -959,6 +987,7 @@ Proof.
   - rewrite read_buf_fst. unfold read_step, mux_error. destruct (find_conn id (m_conns s)); [|exact H].
     destruct (c_queue c); [destruct (c_closed c)|destruct (c_closed c && negb pick)]; destruct (m_err s); exact H.
   - destruct (open_step_fields open_closes_on_closed id s) as [_ [-> _]]. exact H.
+  - rewrite close_checks_ok, stale_close_noop. exact H.
   - unfold write_step. destruct (find_conn id (m_conns s)); [|exact H]. destruct (c_closed c); [exact H|].
     rewrite H. exact H.
   - unfold do_close. now rewrite H.
@@ -1021,24 +1050,29 @@ Proof.
          apply find_conn_In in Ef'. rewrite (proj2 Ef'). destruct (N.eqb_spec id id0); [congruence|reflexivity].
 Qed.
 
-Lemma drain_open closes s id id0 :
+Lemma drain_open closes s id id0 : id0 <> id ->
   queue_in id s = received id [(EvOpen id0, snd (open_step closes id0 s))] ++ queue_in id (fst (open_step closes id0 s)).
 Proof.
-  unfold open_step. destruct (id0 =? reserved_conn_id); [reflexivity|].
-  destruct (find_conn id0 (m_conns s)) as [c|] eqn:Ef; [destruct (c_mapped c); reflexivity|].
+  intros Hne. unfold open_step. destruct (id0 =? reserved_conn_id); [reflexivity|].
+  destruct (find_conn id0 (m_conns s)) as [c|] eqn:Ef.
+  { destruct (c_mapped c); [reflexivity|]. cbn [fst snd received flat_map app].
+    rewrite queue_in_upd by apply keeps_fresh. unfold queue_in.
+    destruct (find_conn id (m_conns s)) as [c'|] eqn:Ef'; [|reflexivity].
+    apply find_conn_In in Ef'. rewrite (proj2 Ef'). destruct (N.eqb_spec id id0); [congruence|reflexivity]. }
   cbn [fst snd received flat_map app]. unfold queue_in. cbn [m_conns set_conns]. rewrite find_conn_app.
   destruct (find_conn id (m_conns s)) eqn:Ei; [reflexivity|].
   unfold find_conn. cbn [find c_id]. destruct (id0 =? id); reflexivity.
 Qed.
 
-Lemma drain_step mp s ev id : m_closed s = true ->
+Lemma drain_step mp s ev id : m_closed s = true -> ev <> EvOpen id ->
   queue_in id s = received id [(ev, snd (step_mp mp s ev))] ++ queue_in id (fst (step_mp mp s ev)).
 Proof.
-  intros H. destruct ev; cbn [step_mp fst snd].
+  intros H Hev. destruct ev; cbn [step_mp fst snd].
   - unfold reader_step. destruct (m_reader_done s); [reflexivity|]. rewrite H. unfold latch. destruct (m_err s); reflexivity.
   - apply drain_read.
   - rewrite read_buf_fst, received_readb. apply drain_read.
-  - apply drain_open.
+  - apply drain_open. congruence.
+  - rewrite close_checks_ok, stale_close_noop. reflexivity.
   - unfold write_step. destruct (find_conn id0 (m_conns s)); [|reflexivity]. destruct (c_closed c); [reflexivity|].
     rewrite H. reflexivity.
   - unfold do_close. rewrite H. reflexivity.
@@ -1048,14 +1082,18 @@ Proof.
   - unfold reader_fail_step. destruct (m_reader_done s); [reflexivity|]. rewrite H. unfold latch. destruct (m_err s); reflexivity.
 Qed.
 
-Theorem drain_after_close mp id : forall evs s s' tr, m_closed s = true -> run_mp mp s evs = (s', tr) ->
+Theorem drain_after_close mp id : forall evs s s' tr, m_closed s = true -> no_open_of id evs = true ->
+  run_mp mp s evs = (s', tr) ->
   queue_in id s = received id tr ++ queue_in id s'.
 Proof.
-  induction evs as [|ev r IH]; intros s s' tr H Hrun; cbn [run_mp] in Hrun.
+  induction evs as [|ev r IH]; intros s s' tr H Hno Hrun; cbn [run_mp] in Hrun.
   - inversion Hrun; subst. reflexivity.
-  - pose proof (drain_step mp s ev id H) as Hd. pose proof (step_closed mp s ev H) as Hc.
+  - cbn [no_open_of forallb] in Hno. apply andb_true_iff in Hno. destruct Hno as [Hev Hno].
+    assert (Hne : ev <> EvOpen id).
+    { intros ->. rewrite N.eqb_refl in Hev. discriminate. }
+    pose proof (drain_step mp s ev id H Hne) as Hd. pose proof (step_closed mp s ev H) as Hc.
     destruct (step_mp mp s ev) as [s1 o] eqn:Es. destruct (run_mp mp s1 r) as [s2 tr2] eqn:Er.
-    inversion Hrun; subst. cbn [fst snd] in *. rewrite Hd, (IH _ _ _ Hc Er).
+    inversion Hrun; subst. cbn [fst snd] in *. rewrite Hd, (IH _ _ _ Hc Hno Er).
     change ((ev, o) :: tr2) with ([(ev, o)] ++ tr2). rewrite received_app, app_assoc. reflexivity.
 Qed.
 
@@ -1144,6 +1182,8 @@ Proof.
   - pose proof (tx_read id pick s) as [H1 H2]. rewrite <- (read_buf_fst id pick blen bcap), Hstep in H1, H2.
     (eapply TxInv_same; [ | | |exact HI]; auto).
   - destruct (open_step_fields open_closes_on_closed id s) as (_&_&H1&H2&_). rewrite Hstep in H1, H2.
+    (eapply TxInv_same; [ | | |exact HI]; auto).
+  - rewrite close_checks_ok in Hstep. pose proof (stale_close_noop id s) as Hn. rewrite Hstep in Hn. cbn [fst] in Hn. subst s'.
     (eapply TxInv_same; [ | | |exact HI]; auto).
   - unfold write_step in Hstep.
     destruct (find_conn id (m_conns s)); [|inversion Hstep; subst; (eapply TxInv_same; [ | | |exact HI]; auto)].
@@ -1371,36 +1411,59 @@ Proof.
 Qed.
 
 (* ---------- Open after the Mux has closed ---------- *)
+(* the id is not in mux.conns: never opened, or closed by conn.Close *)
+Definition not_in_map (id : N) (s : mux_st) : Prop :=
+  forall c, find_conn id (m_conns s) = Some c -> c_mapped c = false.
+
 Theorem open_after_close_fails mp s id :
-  m_closed s = true -> find_conn id (m_conns s) = None -> id <> reserved_conn_id ->
+  m_closed s = true -> not_in_map id s -> id <> reserved_conn_id ->
   let s1 := fst (step_mp mp s (EvOpen id)) in
   snd (step_mp mp s (EvOpen id)) = ROk /\ m_closed s1 = true /\
   (forall pick, exists e, snd (step_mp mp s1 (EvRead id pick)) = RErr e /\ (forall e0, m_err s = Some e0 -> e = e0)) /\
   (forall pick bl bc, exists e, snd (step_mp mp s1 (EvReadB id pick bl bc)) = RErr e /\ (forall e0, m_err s = Some e0 -> e = e0)) /\
   (forall buf cut, snd (step_mp mp s1 (EvWrite id buf cut)) = RErr EEOF).
 Proof.
-  intros Hcl Hf Hid. cbn [step_mp]. rewrite open_closes_ok. unfold open_step.
-  apply N.eqb_neq in Hid. rewrite Hid, Hf, Hcl. cbn [fst snd andb].
-  set (c' := mkConn id [] true true true). set (s1 := set_conns (m_conns s ++ [c']) s).
-  assert (Hfind : find_conn id (m_conns s1) = Some c').
-  { unfold s1. cbn [m_conns set_conns]. rewrite find_conn_app, Hf. unfold find_conn. cbn. now rewrite N.eqb_refl. }
+  intros Hcl Hf Hid. cbn [step_mp]. rewrite open_closes_ok.
+  assert (Hopen : exists s1 c', open_step true id s = (s1, ROk) /\ find_conn id (m_conns s1) = Some c' /\
+                    c_queue c' = [] /\ c_closed c' = true /\ m_err s1 = m_err s /\ m_closed s1 = true).
+  { unfold open_step. apply N.eqb_neq in Hid. rewrite Hid, Hcl. cbn [andb].
+    destruct (find_conn id (m_conns s)) as [c|] eqn:Ef.
+    - rewrite (Hf c Ef). eexists. exists (c_fresh true c). split; [reflexivity|]. cbn [m_conns set_conns m_err m_closed].
+      rewrite find_conn_upd by apply keeps_fresh. rewrite Ef. cbn [option_map].
+      apply find_conn_In in Ef. rewrite (proj2 Ef), N.eqb_refl. repeat split; auto.
+    - eexists. exists (mkConn id [] true true true 0). split; [reflexivity|]. cbn [m_conns set_conns m_err m_closed].
+      rewrite find_conn_app, Ef. unfold find_conn. cbn. rewrite N.eqb_refl. repeat split; auto. }
+  destruct Hopen as (s1&c'&Ho&Hfind&Hq&Hc&He&Hcl1). rewrite Ho. cbn [fst snd].
   assert (Hrd : forall pick, exists e, snd (read_step id pick s1) = RErr e /\ (forall e0, m_err s = Some e0 -> e = e0)).
-  { intros pick. unfold read_step. rewrite Hfind. cbn [c_queue c_closed c']. unfold mux_error.
-    change (m_err s1) with (m_err s). destruct (m_err s) as [e|]; cbn [snd].
-    - exists e. split; [reflexivity|]. intros e0 He. now inversion He.
+  { intros pick. unfold read_step. rewrite Hfind, Hq, Hc. unfold mux_error. rewrite He.
+    destruct (m_err s) as [e|]; cbn [snd].
+    - exists e. split; [reflexivity|]. intros e0 H0. now inversion H0.
     - exists EEOF. split; [reflexivity|discriminate]. }
-  split; [reflexivity|]. split; [exact Hcl|]. split; [exact Hrd|]. split.
+  split; [reflexivity|]. split; [exact Hcl1|]. split; [exact Hrd|]. split.
   - intros pick bl bc. destruct (Hrd pick) as [e [He1 He2]]. exists e. split; [|exact He2].
     rewrite read_buf_snd, He1. reflexivity.
-  - intros buf cut. unfold write_step. rewrite Hfind. reflexivity.
+  - intros buf cut. unfold write_step. rewrite Hfind, Hc. reflexivity.
 Qed.
 
 (* without the fix (Open does not look at doneC) the connection is open for ever: its Read blocks *)
 Theorem open_after_close_refuted :
-  let '(s, tr) := run_var false max_payload_size (init_mux [] 4 [1]) [EvClose; EvOpen 6; EvRead 6 true] in
+  let '(s, tr) := run_var false true max_payload_size (init_mux [] 4 [1]) [EvClose; EvOpen 6; EvRead 6 true] in
   m_closed s = true /\ map snd tr = [ROk; ROk; RBlock].
 Proof. cbn. split; reflexivity. Qed.
 
-(* the machine of the theorems is the variant with the switch read from the source *)
-Lemma step_var_is_step mp s e : step_var open_closes_on_closed mp s e = step_mp mp s e.
+(* ---------- stale handles ---------- *)
+Theorem stale_close_is_noop mp id s : fst (step_mp mp s (EvStaleClose id)) = s.
+Proof. cbn [step_mp]. rewrite close_checks_ok. apply stale_close_noop. Qed.
+
+(* conn.Close without the identity test (delete(mux.conns, id) unconditionally): open 1, close it, open 1 again,
+   close the OLD handle once more — the replacement leaves the map, Mux.Close does not close it, its Read blocks;
+   the sibling connection 2 is woken as it should *)
+Theorem stale_close_unguarded_refuted :
+  let '(s, tr) := run_var true false max_payload_size (init_mux [] 4 [1; 2])
+                    [EvConnClose 1; EvOpen 1; EvStaleClose 1; EvClose; EvRead 1 true; EvRead 2 true] in
+  m_closed s = true /\ map snd tr = [ROk; ROk; ROk; ROk; RBlock; RErr EEOF].
+Proof. cbn. split; reflexivity. Qed.
+
+(* the machine of the theorems is the variant with the switches read from the source *)
+Lemma step_var_is_step mp s e : step_var open_closes_on_closed close_checks_identity mp s e = step_mp mp s e.
 Proof. destruct e; reflexivity. Qed.
